@@ -61,4 +61,55 @@ example : threading scObs opsDemo ⟨[⟨0, 0, 1⟩, ⟨0, 1, 7⟩], [], []⟩ =
 example : order opsDemo ⟨[⟨0, 1, 1⟩], [⟨4, 0, [some 6, none, none], [true, false], [none, none], []⟩], []⟩ = false := by
   decide
 
+/-! ### the tightened judge `specT` (audit item 4)
+
+`specT = spec ∧ onceDue ∧ orderT ∧ gettersT` is the judge the driver applies to the IMPLEMENTATION's
+observation (`c13judge`) and, on every generated history, to the machine's own observation
+(`c13self`).  The all-histories theorem above is proved for `spec`; for the three added clauses the
+full statement is `holds_tight_full` below — NOT proved: it needs (i) a ghost in the machine that
+tells an explicit unsubscribe from a once-wrapper removing itself (for `onceDue`; the machine-level
+content is `C13.skipped_entry_was_removed` / `live_entry_awaited` / `snapshot_entry_awaited_or_removed`),
+(ii) the op index of the loop run in which a task starts, carried through `MInv.started` and tied
+to the snapshots (for `orderT`), (iii) per-snapshot `done` facts at the waiter's return (for
+`gettersT`); and it can only hold for histories whose loop runs need fewer moves than the driver's
+fuel (10000).  Evidence meanwhile: the machine passes `specT` on every history the harness generates
+(differential, reported in the evidence), and the judge provably REJECTS the three observations the
+audit names: -/
+
+def holds_tight_full : Prop := ∀ (sc : Nat → Script) (ops : List Op), specT sc ops (observe sc ops) = true
+
+/-- the part that is proved: the `spec` conjunct of the tightened judge, for all scripts and histories -/
+theorem holds_tight_partial (sc : Nat → Script) (ops : List Op) : spec sc ops (observe sc ops) = true := holds sc ops
+
+def scT : Nat → Script := fun _ => ⟨0, .keep⟩
+
+/-- (a) a finished dispatch that never awaited a once-callback that was live all along:
+accepted by `spec`, rejected by `specT` -/
+example : spec scT [.once 0 1, .disp 0 1, .settle] ⟨[], [⟨2, 0, [some 1, none, none], [true], [none], []⟩], []⟩ = true ∧
+    specT scT [.once 0 1, .disp 0 1, .settle] ⟨[], [⟨2, 0, [some 1, none, none], [true], [none], []⟩], []⟩ = false := by
+  decide
+
+/-- … while the machine's own observation of that history (the callback IS awaited) passes -/
+example : specT scT [.once 0 1, .disp 0 1, .settle] (observe scT [.once 0 1, .disp 0 1, .settle]) = true := by decide
+
+/-- (b) a callback subscribed AFTER the dispatch finished, claimed as awaited by it -/
+example :
+    spec scT [.disp 0 1, .settle, .sub 0 0, .settle]
+      ⟨[⟨0, 0, 1⟩], [⟨1, 0, [some 1, none, none], [true], [none], []⟩, ⟨3, 0, [some 1, none, none], [true], [none], []⟩], []⟩ = true ∧
+    specT scT [.disp 0 1, .settle, .sub 0 0, .settle]
+      ⟨[⟨0, 0, 1⟩], [⟨1, 0, [some 1, none, none], [true], [none], []⟩, ⟨3, 0, [some 1, none, none], [true], [none], []⟩], []⟩ = false := by
+  decide
+
+/-- (c) a getter that returned 1 before any dispatch had finished (the dispatch finishes only later) -/
+example :
+    spec scT [.get 0 none, .settle, .disp 0 1, .settle]
+      ⟨[], [⟨1, 0, [none, none, none], [], [], [.returned 1 0]⟩, ⟨3, 0, [some 1, none, none], [true], [none], [.returned 1 0]⟩],
+        [⟨true, 0, false, .returned 1 0⟩]⟩ = true ∧
+    specT scT [.get 0 none, .settle, .disp 0 1, .settle]
+      ⟨[], [⟨1, 0, [none, none, none], [], [], [.returned 1 0]⟩, ⟨3, 0, [some 1, none, none], [true], [none], [.returned 1 0]⟩],
+        [⟨true, 0, false, .returned 1 0⟩]⟩ = false := by
+  decide
+
+example : specT scObs opsDemo (observe scObs opsDemo) = true := by decide
+
 end PlumVerif.C13
